@@ -10,7 +10,8 @@ from pbt.runner import Outcome
 ID = "C17"
 MIN_NONTRIVIAL = 0.5
 RULE = ("Hypothesis: base = well-formed sequence on 1-2 channels with time/key signature events (consecutive values differ); "
-        "partner = itself / copy() / the same events rebuilt through another construction route or insertion order "
+        "partner = itself / copy() / the same events rebuilt through another construction route or insertion order, or "
+        "the base re-pitched in place through messages_abs() after a first comparison vs. a partner built with the new pitch "
         "('same'), or a single-attribute perturbation that keeps well-formedness: pitch, onset (both ends shifted), "
         "duration, velocity, channel of one note, note added/removed (incl. the last in time order), signature value / "
         "tick / added / removed for both signature kinds, uniform relabelling of a single-channel sequence. All 16 flag "
@@ -19,7 +20,8 @@ RULE = ("Hypothesis: base = well-formed sequence on 1-2 channels with time/key s
         "distinct by case digest.")
 ASSUMPTIONS = ["for a single-note channel change the result under ignore_channel is not specified by the statement and not checked",
                "trailing rests (total duration) are not an attribute the statement lists; partners always have equal content"]
-TIERS = {"quick": dict(shards=8, examples=1200), "thorough": dict(shards=16, examples=12000)}
+TIERS = {"quick": dict(shards=8, examples=1200, alt_ppqn=[480], alt_shards=2),
+         "thorough": dict(shards=16, examples=12000, alt_ppqn=[480, 7, 1000], alt_shards=4)}
 
 FLAGS = ["ch", "ts", "ks", "vel"]
 OWNER = {"velocity": "vel", "ts_value": "ts", "ts_tick": "ts", "ts_add": "ts", "ts_remove": "ts",
@@ -77,7 +79,17 @@ def _case(draw):
         return [i for i, m in enumerate(om) if m[0] == kind]
 
     if attr == "same":
-        how = draw(st.sampled_from(["self", "copy", "rebuild"]))
+        how = draw(st.sampled_from(["self", "copy", "rebuild", "edited", "edited"]))
+        if how == "edited" and on_:
+            # the base is first compared once (any internal ordering is established), then one note is re-pitched in
+            # place through messages_abs(), possibly past a note sounding on the same tick; the partner is built
+            # from scratch with the new pitch
+            i = draw(st.integers(0, len(on_) - 1))
+            new = draw(st.one_of(st.integers(40, 59), st.integers(63, 90)))
+            other["edit"] = {"channel": on_[i][0], "old": on_[i][1], "on": on_[i][2], "off": on_[i][3], "new": new}
+            on_[i][1] = new
+        elif how == "edited":
+            how = "rebuild"
     elif attr in ("pitch", "onset", "duration", "velocity", "channel1", "note_remove"):
         if not on_:
             attr, how = "same", "rebuild"
@@ -198,7 +210,24 @@ def check(case):
         b = a.copy()
     else:
         b = build.sequence(case["other"])
-    out.nontrivial = attr != "same"
+    if attr == "same" and case["how"] == "edited":
+        e = case["other"]["edit"]
+        try:
+            a.equals(a)
+            a.equals(b)
+            for m in a.messages_abs():
+                if m.note == e["old"] and m.channel == e["channel"] and m.time in (e["on"], e["off"]):
+                    m.note = e["new"]
+            from pbt import oracles as O
+            if O.notes(O.seq_events(a)[0])[0] != O.notes(O.seq_events(build.sequence(case["other"]))[0])[0]:
+                out.inconclusive = "in-place-edit-did-not-produce-the-partner"
+                return out
+        except Exception as ex:
+            out.inconclusive = f"in-place-edit-raised:{type(ex).__name__}"
+            return out
+        out.label("edited-in-place")
+        out.nontrivial = True
+    out.nontrivial = attr != "same" or case["how"] == "edited"
     owner = OWNER.get(attr)
     for r in range(5):
         for flags in itertools.combinations(FLAGS, r):
